@@ -51,7 +51,69 @@ def _run_config(args):
     return part
 
 
+def _worker_main(argv):
+    """python -m symx.runner --worker <module> <index> <tier> <seed> <outfile>"""
+    import pickle
+    import resource
+    lim = int(os.environ.get('VERIF_WORKER_MEM_GB', '6')) * (1 << 30)
+    try:
+        resource.setrlimit(resource.RLIMIT_AS, (lim, lim))
+    except (ValueError, OSError):
+        pass
+    try:
+        import z3
+        z3.set_param('memory_max_size', int(os.environ.get('VERIF_Z3_MEM_MB', '4000')))
+    except Exception:  # noqa: BLE001
+        pass
+    modname, idx, tier, seed, out = argv
+    part = _run_config((modname, int(idx), tier, int(seed)))
+    with open(out, 'wb') as fh:
+        pickle.dump(part, fh)
+    return 0
+
+
+def _run_parallel(work, cfgs, jobs):
+    """One fresh interpreter per configuration (no fork of a threaded parent; hard time limits)."""
+    import pickle
+    import subprocess
+    import tempfile
+    from concurrent.futures import ThreadPoolExecutor
+    tmpdir = tempfile.mkdtemp(prefix='symx-')
+
+    def one(w):
+        modname, idx, tier, seed = w
+        cfg = cfgs[idx]
+        out = os.path.join(tmpdir, 'part-%d.pkl' % idx)
+        limit = (cfg.timeout_s or 3600) + 120
+        t0 = time.time()
+        try:
+            p = subprocess.run([sys.executable, '-u', '-m', 'symx.runner', '--worker', modname, str(idx), tier, str(seed), out],
+                               stdout=subprocess.PIPE, stderr=subprocess.STDOUT, timeout=limit, cwd=R.VERIF)
+            if os.path.exists(out):
+                with open(out, 'rb') as fh:
+                    return pickle.load(fh)
+            part = R.Part(cfg.name)
+            part.inconclusive.append("%s: worker exited %d without a result: %s" % (cfg.name, p.returncode,
+                                                                                    p.stdout.decode(errors='replace')[-800:]))
+        except subprocess.TimeoutExpired:
+            part = R.Part(cfg.name)
+            part.inconclusive.append("%s: worker killed after %ds" % (cfg.name, limit))
+        part.wall = time.time() - t0
+        return part
+    try:
+        with ThreadPoolExecutor(max_workers=jobs) as tp:
+            parts = list(tp.map(one, work))
+    finally:
+        import shutil
+        shutil.rmtree(tmpdir, ignore_errors=True)
+    return parts
+
+
 def main(argv=None):
+    if argv is None:
+        argv = sys.argv[1:]
+    if argv and argv[0] == '--worker':
+        return _worker_main(argv[1:])
     ap = argparse.ArgumentParser()
     ap.add_argument('prop')
     ap.add_argument('--tier', default=os.environ.get('VERIF_TIER', 'quick'))
@@ -88,10 +150,7 @@ def main(argv=None):
     if jobs <= 1 or len(work) <= 1:
         parts = [_run_config(w) for w in work]
     else:
-        ctxm = mp.get_context('fork')
-        with ctxm.Pool(jobs, maxtasksperchild=1) as pool:
-            parts = list(pool.imap_unordered(_run_config, work, chunksize=1))
-        parts.sort(key=lambda p: [c.name for c in cfgs].index(p.name))
+        parts = _run_parallel(work, cfgs, jobs)
     wall = time.time() - t0
 
     level = getattr(mod, 'LEVEL', 'model_checking')
